@@ -117,7 +117,9 @@ def inline_text(store, url, expected, chain=(), via=None):
     for line in _lines(store[url]):
         m = _INC.match(line)
         ref = _via_expand(m.group(1), via) if m else None
-        if m and "$" not in ref:
+        if m and "$" not in ref.replace("$$", ""):
+            # ('$$' in a reference is an escaped dollar: the name has one)
+            ref = ref.replace("$$", "$")
             target = urllib.parse.urljoin(url, ref)
             expected.append(target)
             if target in store and target not in chain and "#" not in target:
@@ -219,8 +221,8 @@ def _torn(rng, uni):
     for ln in frag:
         if ln["role"] == "include":
             ln = dict(ln)
-            ln["ref"] = ln["target"]
-            ln["t"] = "%include " + ln["target"]
+            ln["ref"] = ln["target"].replace("$", "$$")
+            ln["t"] = "%include " + ln["ref"]
         moved.append(ln)
     uni["res"][target] = moved
     return target
